@@ -348,7 +348,7 @@ def build_case(case_seed, nbase, nprefix):
         m, feats = literal_array_module()
     else:
         m, feats = semgen.layout_module(rnd)
-    return build_case_model(m, feats, rnd, nbase, nprefix, aligned_fn=lambda r: r.choice([0, 0, 0, 0, 0, 2, 4, 8]))
+    return build_case_model(m, feats, rnd, nbase, nprefix, aligned_fn=lambda r: r.choice([0, 0, 0, 0, "char", 2, 4, 8]))
 
 
 def build_case_model(m, feats, rnd, nbase, nprefix, buffer_plan=None, aligned_fn=None):
@@ -376,7 +376,9 @@ def build_case_model(m, feats, rnd, nbase, nprefix, buffer_plan=None, aligned_fn
                 for n in lens:
                     b = base[:n]
                     al = aligned_fn(rnd) if aligned_fn else 0
-                    if al:
+                    if al == "char":
+                        script.append("H %d %s %s" % (si, b.hex() or "-", " ".join(str(x) for x in pv)))
+                    elif al:
                         script.append("A %d %d %s %s" % (si, al, b.hex() or "-", " ".join(str(x) for x in pv)))
                     else:
                         script.append("V %d %s %s" % (si, b.hex() or "-", " ".join(str(x) for x in pv)))
